@@ -206,6 +206,10 @@ def run(ctx):
     if rc != 0 or not rows:
         ctx.problem("correspondence", "go harness C10", out[-2500:])
         return
+    for r in rows:
+        # a scenario that could not even be started (reported below as a machinery problem of the harness) has no groups
+        r["groups"] = r.get("groups") or []
+        r["mon"] = r.get("mon") or []
     # ---- coverage
     ctx.evaluations = sum(len(r["groups"]) for r in rows)
     stats = {}
